@@ -97,6 +97,8 @@ class UntypedAtomic(AnyAtomicType):
                 return op(get_double(self.value, self._xsd_version), other)
             case None | str() | list():
                 return op(self.value, other)
+            case Decimal():
+                return op(get_double(self.value, self._xsd_version), float(other))
             case AnyAtomicType():
                 if hasattr(other, 'make'):
                     return op(type(other).make(self.value, parser=self.parser), other)
